@@ -171,6 +171,28 @@ m("quote-index-after-advance", ["C03", "C15"], "break", "token/quote.go",
   "		r, size := utf8.DecodeRuneInString(s[i:])\n		if r == utf8.RuneError && size == 1 {",
   "		r, size := utf8.DecodeRuneInString(s[i:])\n		i += size\n		if r == utf8.RuneError && size == 1 {",
   "s[i] is read after i was advanced (the later `i++`/`i += size` are left in place: also skips bytes)")
+# ---- behaviour-preserving rewrites of the lexer (must stay silent) ---------------------------------
+LEXKEEP = ["C03", "C13", "C14"]
+m("lexer-ident-loop-break", LEXKEEP, "keep", "lexer.go",
+  "		i := 0\n		for l.peekOk(i) && char.IsIdentPart(l.peek(i)) {\n			i++\n		}\n		l.Token.Kind = token.TokenIdent\n		l.Token.AsString = l.Buffer[l.pos : l.pos+i]",
+  "		i := 0\n		for ; l.peekOk(i); i++ {\n			if !char.IsIdentPart(l.peek(i)) {\n				break\n			}\n		}\n		l.Token.Kind = token.TokenIdent\n		l.Token.AsString = l.Buffer[l.pos : l.pos+i]")
+m("lexer-skip-twice", LEXKEEP, "keep", "lexer.go",
+  "		case l.peekIs(1, '<'):\n			l.skipN(2)\n			l.Token.Kind = \"<<\"",
+  "		case l.peekIs(1, '<'):\n			l.skip()\n			l.skip()\n			l.Token.Kind = \"<<\"")
+m("lexer-peekis-via-peekok", LEXKEEP, "keep", "lexer.go",
+  "	return l.pos+i < len(l.Buffer) && l.Buffer[l.pos+i] == c", "	return l.peekOk(i) && l.peek(i) == c")
+m("lexer-eof-via-peekok", LEXKEEP, "keep", "lexer.go",
+  "func (l *Lexer) eof() bool {\n	return l.pos >= len(l.Buffer)\n}", "func (l *Lexer) eof() bool {\n	return !l.peekOk(0)\n}")
+m("lexer-skipspaces-direct", LEXKEEP, "keep", "lexer.go",
+  "func (l *Lexer) skipSpaces() {\n	for !l.eof() {", "func (l *Lexer) skipSpaces() {\n	for l.pos < len(l.Buffer) {")
+m("lexer-token-pos-via-local", LEXKEEP, "keep", "lexer.go",
+  "	l.Token.Pos = token.Pos(l.pos)\n	i := l.pos\n	if l.dotIdent {", "	i := l.pos\n	l.Token.Pos = token.Pos(i)\n	if l.dotIdent {")
+m("lexer-slice-min", LEXKEEP, "keep", "lexer.go",
+  "	if len(l.Buffer) < l.pos+end {\n		end = len(l.Buffer) - l.pos\n	}\n	return string(l.Buffer[l.pos+start : l.pos+end])",
+  "	end = min(end, len(l.Buffer)-l.pos)\n	return string(l.Buffer[l.pos+start : l.pos+end])")
+m("lexer-comment-end-from-raw", LEXKEEP, "keep", "lexer.go",
+  "			Raw:   l.Buffer[i:l.pos],\n			Pos:   token.Pos(i),\n			End:   token.Pos(l.pos),",
+  "			Raw:   l.Buffer[i:l.pos],\n			Pos:   token.Pos(i),\n			End:   token.Pos(i + len(l.Buffer[i:l.pos])),")
 
 def sh(cmd, cwd=None):
     return subprocess.run(cmd, shell=True, cwd=cwd, capture_output=True, text=True)
